@@ -155,8 +155,10 @@ func (l *_LexerStateMachine) PushRune(r rune) int {
 	}
 
 	// The input ending while accumulated text is still pending is an error:
-	// that text would otherwise vanish without a token or a diagnostic.
-	if l.state == 0 && r == -1 && !l.accum {
+	// that text would otherwise vanish without a token or a diagnostic. The
+	// same goes for text consumed by an unfinished match: being in state 0 is
+	// not enough, a loop can lead back to it ((ab)* c after "ab").
+	if l.state == 0 && r == -1 && !l.consumed && !l.accum {
 		return _lexerEOF
 	}
 
